@@ -557,3 +557,59 @@ Theorem c10_record_array_example_and_other_format_refuted :
    | None => False
    end).
 Proof. exact (conj rec_view_codec_example rec_view_other_writer_format_refuted). Qed.
+
+(** ---------------------------------------------------------------------------------------------------------------
+    Round 5: what BSP.save leaves behind when it raises half-way (a writer looks at a view that cannot be parsed) and
+    the caller carries on.  [save_a restore]: the rebuild loop with an [except] clause around the writer call;
+    [restore = true] (fix c8f05ec, generated flag [bsp_save_restores_on_abort]) puts the popped value back into the
+    cache before the exception propagates, [restore = false] is the plain loop. *)
+Section C10Abort.
+  Variables D P : Type.
+  Variable empty : D.
+  Variable rd : nat -> list D -> option P.
+  Variable wr : nat -> P -> list D.
+  Variable g : graph.
+  Variable sh : shape.
+
+  (** The except clause changes nothing unless the save raises: the completion flag is the same, a save that completes is
+      the plain save (so every theorem above about [save] is about [save_a]), and without the clause [save_a] is [save]. *)
+  Theorem c10_except_clause_matters_only_when_save_raises : forall restore (s : state D P),
+    fst (save_a D P empty rd wr g sh restore s) = fst (save D P empty rd wr g sh s) /\
+    (fst (save D P empty rd wr g sh s) = true -> save_a D P empty rd wr g sh restore s = save D P empty rd wr g sh s) /\
+    save_a D P empty rd wr g sh false s = save D P empty rd wr g sh s.
+  Proof. exact (save_a_summary D P empty rd wr g sh). Qed.
+
+  (** With the clause, a save that raises loses nothing: after ANY access sequence (looks that raise included) and a save
+      that may or may not complete, every view still denotes what its reader makes of the file's lumps and lumps without
+      a view are untouched. *)
+  Theorem c10_aborted_save_keeps_content : order_consistent g = true -> shape_ok sh = true ->
+    forall (s0 : state D P) accs, fresh D P s0 -> wr_len_ok D P rd wr g s0 -> codec_ok D P rd wr g s0 ->
+    let r := save_a D P empty rd wr g sh true (run D P empty rd g sh accs s0) in
+    (forall v, v < nviews g -> denote D P rd g (snd r) v = rd v (own_data D P g s0 v)) /\
+    (forall l, ~ owned g l -> raw (snd r) l = raw s0 l).
+  Proof. exact (aborted_save_keeps_content D P empty rd wr g sh). Qed.
+
+  (** ... and the caller can carry on: after a save that may have raised half-way, ANY further looks (raising ones included)
+      and a save that completes are lossless with respect to the ORIGINAL file: the cache is empty, every view parses to the
+      same content (or is rejected as before), lumps without a view are byte-identical. *)
+  Theorem c10_retry_after_aborted_save_lossless : order_consistent g = true -> shape_ok sh = true ->
+    forall (s0 : state D P) accs accs2, fresh D P s0 -> wr_len_ok D P rd wr g s0 -> codec_ok D P rd wr g s0 ->
+    let r := save_a D P empty rd wr g sh true (run D P empty rd g sh accs s0) in
+    let r2 := save_a D P empty rd wr g sh true (run D P empty rd g sh accs2 (snd r)) in
+    fst r2 = true -> fresh D P (snd r2) /\ same_content D P rd g (snd r2) s0.
+  Proof. exact (retry_after_aborted_save_lossless D P empty rd wr g sh). Qed.
+End C10Abort.
+
+(** Without the clause (the pinned tree before fix c8f05ec): the writer of view 0 looks at view 1, which cannot be parsed;
+    the reader of view 0 does not.  Look at view 0, save (raises), save again: the second save completes and writes lump 0
+    empty.  With the clause the view is cached again and the second save raises like the first. *)
+Theorem c10_aborted_save_drops_view_refuted :
+  let s := run nat (list nat) 0 ex_rd g_wabort std_shape [0] ex_bad in
+  let r := save_a nat (list nat) 0 ex_rd ex_wr g_wabort std_shape false s in
+  let r2 := save_a nat (list nat) 0 ex_rd ex_wr g_wabort std_shape false (snd r) in
+  let q := save_a nat (list nat) 0 ex_rd ex_wr g_wabort std_shape true s in
+  let q2 := save_a nat (list nat) 0 ex_rd ex_wr g_wabort std_shape true (snd q) in
+  order_consistent g_wabort = true /\ raw ex_bad 0 = 1 /\ cache s 0 = Some [1] /\
+  fst r = false /\ cache (snd r) 0 = None /\ raw (snd r) 0 = 0 /\ fst r2 = true /\ raw (snd r2) 0 = 0 /\
+  fst q = false /\ cache (snd q) 0 = Some [1] /\ fst q2 = false /\ cache (snd q2) 0 = Some [1].
+Proof. exact aborted_save_drops_view_refuted. Qed.
